@@ -846,7 +846,7 @@ impl<'tcx> Cx<'tcx> {
         for l in tcx.hir_crate_items(()).definitions() {
             let did = l.to_def_id();
             match tcx.def_kind(did) {
-                DefKind::Fn | DefKind::AssocFn | DefKind::Closure | DefKind::Const { .. } | DefKind::AssocConst { .. }
+                DefKind::Fn | DefKind::AssocFn | DefKind::Const { .. } | DefKind::AssocConst { .. }
                 | DefKind::Static { .. } => items.push(self.item_json(did)),
                 DefKind::Impl { .. } => impls.push(self.impl_json(did)),
                 DefKind::Trait => traits.push(self.trait_json(did)),
@@ -858,6 +858,9 @@ impl<'tcx> Cx<'tcx> {
         let mut nbodies = 0usize;
         for l in tcx.hir_body_owners() {
             let did = l.to_def_id();
+            if matches!(tcx.def_kind(did), DefKind::Closure | DefKind::InlineConst) {
+                items.push(self.item_json(did));
+            }
             self.cur_owner.set(did);
             let kind = tcx.def_kind(did);
             let body: &Body<'tcx> = match kind {
@@ -865,8 +868,10 @@ impl<'tcx> Cx<'tcx> {
                     // const fns have both; optimized_mir is the runtime body
                     tcx.optimized_mir(did)
                 }
-                DefKind::Const { .. } | DefKind::AssocConst { .. } | DefKind::Static { .. } => tcx.mir_for_ctfe(did),
-                _ => continue, // anon consts, inline consts
+                DefKind::Const { .. } | DefKind::AssocConst { .. } | DefKind::Static { .. } | DefKind::InlineConst => {
+                    tcx.mir_for_ctfe(did)
+                }
+                _ => continue, // anon consts
             };
             nbodies += 1;
             let mut o = String::new();
